@@ -498,7 +498,7 @@ WHERE {where} ORDER BY jobs.batch_id, jobs.job_id''', args)
                 'attempts': [{'batch_id': a['batch_id'], 'job_id': a['job_id'], 'attempt_id': a['attempt_id']} for a in atts]}
         return await self._guard(self.m.dm.billing_update_1(FakeRequest(self.app, body), inst))
 
-    async def op_unschedule(self, att_i):
+    async def op_unschedule(self, att_i, stale=False):
         # callers of unschedule_job (cancel-running loop, orphaned-attempt loop) only pass attempts on ACTIVE instances
         #   - cancel_cancelled_running_jobs: the current attempt of a Running, cancelled, non-always-run job
         #   - cancel_orphaned_attempts: a started, un-ended attempt that is not the current attempt of a Running/Creating job
@@ -518,11 +518,17 @@ WHERE {where} ORDER BY jobs.batch_id, jobs.job_id''', args)
                 cands.append(x)
             elif not current and row['start_time'] is not None and row['end_time'] is None:
                 cands.append(x)
+            elif stale and (x.get('unscheduled') or v.job_cancelled(j)):
+                # a record the canceller selected a moment ago (the job was running and cancelled) whose attempt has meanwhile
+                # been completed by the worker, or an unschedule call repeated after a lost reply
+                cands.append(x)
         a = self._pick(cands, att_i)
         if a is None:
             return None
         rec = dict(batch_id=a['batch_id'], job_id=a['job_id'], attempt_id=a['attempt_id'], instance_name=a['instance'])
         r = await self._guard(self.m.dj.unschedule_job(self.app, rec))
+        if r.get('ok'):
+            a['unscheduled'] = True
         r.update(job=(a['batch_id'], a['job_id']), attempt_id=a['attempt_id'], instance=a['instance'])
         return r
 
